@@ -313,7 +313,7 @@ def prod_isolation(e, tier="quick", ops=None):
                       info=dict(op=op, shape="%s/%s" % (xa.a_shape, xa.o_shape)))
 
 
-HISTORIES = ["open_add", "alloc", "claim", "open_add_sweep", "alloc_sweep_claim", "open_close_other",
+HISTORIES = ["open_add", "alloc", "claim", "open_add_sweep", "open_add_livesweep", "alloc_sweep_claim", "open_close_other",
              "claim_list_open_close", "claim_list_release", "list_other_app", "alloc_claim", "any2", "any3",
              "any2_sweep", "any3_sweep"]
 
@@ -342,11 +342,15 @@ def run_history(x, kind, sy):
         c = w.new_conn(label)
         w.deliver(c, w.msg("bind", appid=app, side=side))
         return c
-    if kind in ("open_add", "open_add_sweep"):
+    if kind in ("open_add", "open_add_sweep", "open_add_livesweep"):
         e.assume(z3.And(b.p, b.sides[0].p))
         g = conn("gA", b.app, b.sides[0].side)
         w.deliver(g, w.msg("open", mailbox=b.mid))
         w.deliver(g, w.msg("add", phase=sy["g.phase"], body=sy["g.body"]))
+        if kind == "open_add_livesweep":
+            # a sweep fires while the client is still subscribed (its mailbox is re-stamped), some time
+            # later the client leaves: whatever the sweep did must be on disk by the cut
+            w.expire()
         w.disconnect(g)
         if kind == "open_add_sweep":
             # long silence: the next sweep finds the mailbox old
